@@ -11,6 +11,8 @@ import core
 RULE = ("exhaustive: every trajectory over {0,1,2,NaN} of length <= L (quick 5, thorough 6) x tau in {1,2,3,7} x both window "
         "modes, then random long trajectories (<= 2000 frames, <= 30 cells, NaN runs, unvisited cells, tau up to 50); "
         "plus sequences of 2-6 requests on ONE MSM object (single lags and get_all_tau arrays with repeated / fractional lags); "
+        "plus LARGE cell counts n in {255..2^22} around 2^8, 2^15, 2^16, 2^17, 2^20 (short trajectories visiting cells 0, n-1, "
+        "and cells around 2^16 and n/2; compared sparsely: the model's support entries for n <= 2^17, the exact spec for all); "
         "a case is non-trivial when at least one window is counted; distinct by (trajectory, n, tau, mode)")
 CHUNK = 3000
 PARALLEL = 12   # thorough tier: fork pool for the implementation side
@@ -63,6 +65,20 @@ def cases(ctx):
                 taus = [rng.choice([1, 2, 2, 3, 4, 9, 20, 40]) + rng.choice([0, 0, 0.5]) for _t in range(rng.randint(1, 4))]
                 calls.append({"f": "all", "taus": taus, "noncorr": rng.random() < 0.5})
         yield {"kind": "msm_hist", "xs": xs, "n": n, "calls": calls}
+    # large cell counts ("all cell counts"): flattened (i, j) keys of a vectorised count would exceed 2^16 / 2^31 / 2^32 here
+    bigs = [255, 256, 257, 32767, 32768, 46341, 65535, 65536, 65537, 70000, 92682, 131071, 131072]
+    huge = [131073, 1 << 20, (1 << 20) + 3, 3000017, 1 << 22]
+    for n in bigs + huge + [rng.randint(65537, 131072) for _ in range(3 if ctx.quick else 40)]:
+        for rep in range(2 if ctx.quick else 6):
+            pool = sorted({0, 1, n - 1, n - 2, n // 2, min(n - 1, 65535), min(n - 1, 65536), min(n - 1, 65537),
+                           rng.randrange(n), rng.randrange(n)})
+            L = rng.randint(3, 9)
+            xs = [None if rng.random() < 0.15 else rng.choice(pool) for _k in range(L)]
+            if rep == 0:
+                xs = [n - 1, n - 1, 0, n - 1, n - 2, n - 1][:max(3, L)]   # high-index pairs for certain
+            tau = rng.choice([1, 1, 2, 3])
+            yield {"kind": "msm_big", "xs": xs, "n": n, "tau": tau, "noncorr": rng.random() < 0.5,
+                   "model": n <= 131072}
     # window generator directly, with other steps
     for _ in range(60 if ctx.quick else 600):
         L = rng.randint(0, 40)
@@ -78,6 +94,12 @@ def impl(case):
             if case["kind"] == "msm":
                 T = MSM(xs, case["n"]).get_one_tau_transition_matrix(case["tau"], case["noncorr"])
                 return {"T": T.toarray().tolist(), "shape": list(T.shape)}
+            elif case["kind"] == "msm_big":
+                T = MSM(xs, case["n"]).get_one_tau_transition_matrix(case["tau"], case["noncorr"]).tocoo()
+                acc = {}
+                for i, j, v in zip(T.row.tolist(), T.col.tolist(), T.data.tolist()):
+                    acc[(i, j)] = acc.get((i, j), 0.0) + v      # coo may hold duplicates: they add up
+                return {"entries": sorted([i, j, v] for (i, j), v in acc.items() if v != 0), "shape": list(T.shape)}
             elif case["kind"] == "msm_hist":
                 obj = MSM(xs, case["n"])
                 res = []
@@ -103,6 +125,10 @@ def model_ops(case, out):
         return [{"op": "msm", "xs": case["xs"], "n": case["n"], "tau": r["tau"], "noncorr": r["noncorr"]} for r in out["hist"]]
     if case["kind"] == "msm":
         return [{"op": "msm", "xs": case["xs"], "n": case["n"], "tau": case["tau"], "noncorr": case["noncorr"]}]
+    if case["kind"] == "msm_big":
+        if not case["model"]:
+            return []
+        return [{"op": "msm_sparse", "xs": case["xs"], "n": case["n"], "tau": case["tau"], "noncorr": case["noncorr"]}]
     return [{"op": "windows", "xs": case["xs"], "tau": case["tau"], "step": case["step"]}]
 
 
@@ -124,6 +150,30 @@ def compare(ctx, case, out, mouts):
         ctx.branch("history")
         if any(any(any(v != 0 for v in row) for row in r["T"]) for r in out["hist"]):
             ctx.nt(("hist", tuple(case["xs"]), repr(case["calls"])))
+        return
+    if case["kind"] == "msm_big":
+        ctx.branch("large_cell_count" if case["model"] else "large_cell_count_oracle_only")
+        if not case["model"]:
+            return
+        m = mouts[0]
+        if "err" in out or "err" in m:
+            if out.get("err") != m.get("err"):
+                ctx.corr("msm_big/outcome", case, out, m)
+            return
+        if out["shape"] != [case["n"], case["n"]]:
+            ctx.corr("msm_big/shape", case, out["shape"], [case["n"], case["n"]])
+            return
+        me = sorted({(e[0], e[1], core.unrat(e[2])) for e in m["ok"]})
+        ie = out["entries"]
+        if [(e[0], e[1]) for e in ie] != [(e[0], e[1]) for e in me]:
+            ctx.corr("msm_big/pattern", case, [e[:2] for e in ie], [list(e[:2]) for e in me])
+            return
+        for a, b in zip(ie, me):
+            if not core.close(a[2], float(b[2]), rel=1e-14, abs_=0):
+                ctx.corr("msm_big/entry", case, a, [b[0], b[1], str(b[2])])
+                return
+        if ie:
+            ctx.nt((tuple(case["xs"]), case["n"], case["tau"], case["noncorr"]))
         return
     m = mouts[0]
     if "err" in out or "err" in m:
@@ -193,6 +243,39 @@ def oracle(ctx, case, out):
             if not np.allclose(np.array(r["T"]).reshape(n, n), Sf, rtol=1e-13, atol=0):
                 ctx.fail("C12:entry_formula_history", f"result {k} of a sequence of requests on one MSM object (tau={r['tau']}, "
                          f"non-overlapping={r['noncorr']}) differs from (c_ij+c_ji)/sum_k(c_ik+c_ki)", case, Sf.tolist(), r["T"])
+                return
+        return
+    if case["kind"] == "msm_big":
+        if "err" in out:
+            ctx.fail("C12:exception", f"transition matrix raised {out['err']}", case)
+            return
+        n, tau = case["n"], case["tau"]
+        xs, step = case["xs"], (case["tau"] if case["noncorr"] else 1)
+        c = {}
+        k = 0
+        while k < len(xs) - tau:
+            a, b = xs[k], xs[k + tau]
+            if a is not None and b is not None:
+                c[(a, b)] = c.get((a, b), 0) + 1
+            k += step
+        sym, w = {}, {}
+        for (a, b), v in c.items():
+            sym[(a, b)] = sym.get((a, b), 0) + v
+            sym[(b, a)] = sym.get((b, a), 0) + v
+        for (a, b), v in sym.items():
+            w[a] = w.get(a, 0) + v
+        want = sorted([a, b, float(Fraction(v, w[a]))] for (a, b), v in sym.items())
+        got = out["entries"]
+        if out["shape"] != [n, n] or [e[:2] for e in got] != [e[:2] for e in want] or \
+                any(abs(g[2] - x[2]) > 1e-13 * abs(x[2]) for g, x in zip(got, want)):
+            ctx.fail("C12:entry_formula_large_n", f"n={n}: non-zero entries differ from (c_ij+c_ji)/sum_k(c_ik+c_ki)", case, want, got)
+            return
+        rows = {}
+        for i, _j, v in got:
+            rows[i] = rows.get(i, 0.0) + v
+        for i, sv in rows.items():
+            if abs(sv - 1) > 1e-12:
+                ctx.fail("C12:row_sum", f"row {i} of a visited cell sums to {sv}", case)
                 return
         return
     if case["kind"] != "msm":
